@@ -20,7 +20,7 @@ ASSUMPTIONS = ["absolute tolerance 1e-6 (scaled by max(1,|r|) for SE(3) blocks t
                "reference derivative: 8th-order central differences with step 1e-5 in 50-digit arithmetic on the mpmath models of vlib/mpref.py (truncation error < 1e-30)",
                "Log_SO3_A is the partial derivative of the formula extended to R^{3x3} (trace and skew part); the model differentiates the same extension",
                "|psi| <= pi - 1e-3 for the logarithm derivatives (Log is not differentiable at half turns)"]
-REQUIRED_MONITORS = ["Exp_SO3_psi", "T_SO3_psi", "T_SO3_dot", "T_SO3_inv_psi", "Log_SO3_A", "Exp_SE3_h", "Log_SE3_H", "T_SO3_quat_P", "T_SO3_inv_quat_P", "fd_tie", "purity"]
+REQUIRED_MONITORS = ["Exp_SO3_psi", "T_SO3_psi", "T_SO3_dot", "T_SO3_inv_psi", "Log_SO3_A", "Exp_SE3_h", "Log_SE3_H", "T_SO3_quat_P", "T_SO3_inv_quat_P", "fd_tie", "purity", "representation"]
 META = {
     "level_text": "Exploration: every SO(3)/SE(3) derivative routine is evaluated on seeded points (log-uniform angles down to 1e-9 and exact zero) and compared with the derivative of an independent 50-digit model of the map; held on the points generated.",
     "level_note": "absolute tolerance 1e-6; reference = mpmath model differentiated by high-order differences in 50-digit arithmetic; finite-difference tie between model and real map only for |psi| >= 1e-3.",
@@ -114,6 +114,14 @@ def _run_case(spec, ctx):
                 for q_, nz in ((P, True), (Pu, False), (Pu, True)):
                     thunks.append((name, {"function": name, "P": q_, "normalize": nz}, (lambda f=getattr(R, name), a=q_, z=nz: f(a.copy(), normalize=z))))
         purity_check(ctx, rng, thunks, mon="purity", scribble=True)
+        from vlib.oracles import representation_check
+        calls = []
+        for name, d, _ in thunks[:90]:
+            if "arguments" in d:
+                calls.append((name, getattr(R, name), tuple(np.array(x, copy=True) for x in d["arguments"]), {}))
+            else:
+                calls.append((name, getattr(R, name), (np.array(d["P"], copy=True),), {"normalize": d["normalize"]}))
+        representation_check(ctx, calls, mon="representation")
         ctx.cls("kind:purity")
         ctx.sig([kind, first], nontrivial=True)
         ctx.sample({"kind": kind, "calls": len(thunks)})
